@@ -36,6 +36,7 @@ theorem isPrefix_nil (src : Bytes) : IsPrefix [] src := by simp [IsPrefix]
 def InvPc (c : Cfg) (target tmp anon : Option Bytes) : Pc → Prop
   | .start => target = c.old ∧ tmp = none ∧ anon = none
   | .start2 => tmp = none ∧ anon = none ∧ c.kind = .full
+  | .start3 => tmp = some [] ∧ anon = some [] ∧ c.kind = .full
   | .recv => tmp = none ∧ c.kind = .full ∧ ∃ a, anon = some a ∧ IsPrefix a c.body
   | .linked => tmp = some c.new
   | .needRename => tmp = some c.new
@@ -50,10 +51,10 @@ def InvPc (c : Cfg) (target tmp anon : Option Bytes) : Pc → Prop
   | .zRen => tmp = some [] ∧ anon = none ∧ c.kind = .zero
   | .pExcl => tmp = none ∧ anon = none ∧ ∃ off o, c.kind = .part off ∧ c.old = some o
   | .pCopy => anon = none ∧ ∃ off o a, c.kind = .part off ∧ c.old = some o ∧ tmp = some a ∧ IsPrefix a o
-  | .pPatch j => anon = none ∧ ∃ off o, c.kind = .part off ∧ c.old = some o ∧
+  | .pPatch j => anon = none ∧ j ≤ c.body.length ∧ ∃ off o, c.kind = .part off ∧ c.old = some o ∧
       tmp = some (Dav.patch o off (c.body.take j))
-  | .pClose => tmp = none ∧ anon = none
-  | .pFail _ u => anon = none ∧ (u = false → tmp = none)
+  | .pRen => anon = none ∧ tmp = some c.new
+  | .pFail cl u => anon = none ∧ (u = false → tmp = none) ∧ (cl = true ∨ u = true)
   | .done => tmp = none ∧ anon = none
 
 def Inv (c : Cfg) (s : PSt) : Prop :=
@@ -106,7 +107,7 @@ theorem inv_step {c : Cfg} {s s' : PSt} {ev : Ev} (hi : Inv c s) (hs : stepEv c 
   -- pExcl → pPatch 0 (old content is empty)
   · rename_i hemp
     obtain ⟨_, h2, off, o, hk, ho⟩ := hp
-    refine ⟨ht, h2, off, o, hk, ho, ?_⟩
+    refine ⟨ht, h2, Nat.zero_le _, off, o, hk, ho, ?_⟩
     have : o = [] := by simpa [ho] using hemp
     simp [patch_nil, this]
   -- pCopy → pPatch 0 (copy complete)
@@ -115,7 +116,7 @@ theorem inv_step {c : Cfg} {s s' : PSt} {ev : Ev} (hi : Inv c s) (hs : stepEv c 
     cases ha
     have e : o = o0 := Option.some.inj (ho.symm.trans heq)
     subst e
-    refine ⟨ht, h1, off, o, hk, ho, ?_⟩
+    refine ⟨ht, h1, Nat.zero_le _, off, o, hk, ho, ?_⟩
     have hl : (extend o a0 n).length = o.length := by simpa using hlen
     rw [List.take_zero, patch_nil, prefix_full (extend_isPrefix hpre hle) hl]
   -- pCopy → pCopy
@@ -125,17 +126,17 @@ theorem inv_step {c : Cfg} {s s' : PSt} {ev : Ev} (hi : Inv c s) (hs : stepEv c 
     have e : o = o0 := Option.some.inj (ho.symm.trans heq)
     subst e
     exact ⟨ht, h1, off, o, _, hk, ho, rfl, extend_isPrefix hpre hle⟩
-  -- pPatch → pClose (rename)
+  -- pPatch → pRen (closed without error)
   · rename_i j hjb _
-    obtain ⟨h1, off, o, hk, ho, htmp⟩ := hp
+    obtain ⟨h1, _, off, o, hk, ho, htmp⟩ := hp
     have hj : j = c.body.length := by simpa using hjb
-    refine ⟨Or.inr ?_, trivial, h1⟩
+    refine ⟨ht, h1, ?_⟩
     rw [htmp, new_part hk ho, hj, List.take_length]
 
 
 /-- status bookkeeping: success is decided exactly when the new content has been published -/
 def InvS (c : Cfg) (s : PSt) : Prop :=
-  (s.status = 2 → s.target = some c.new ∧ (s.pc = .closing ∨ s.pc = .done ∨ s.pc = .pClose)) ∧
+  (s.status = 2 → s.target = some c.new ∧ (s.pc = .closing ∨ s.pc = .done)) ∧
   (s.status ≠ 2 → s.target = c.old)
 
 theorem invS_init (c : Cfg) : InvS c (init c) := by
@@ -158,11 +159,6 @@ theorem invS_step {c : Cfg} {s s' : PSt} {ev : Ev} (hi : Inv c s) (h2 : InvS c s
   all_goals (first | (simp_all; done) | skip)
   all_goals (first | (cases anon <;> simp_all <;> done) | skip)
   all_goals (first | (simp_all [new_zero]; done) | skip)
-  · rename_i j hjb _
-    obtain ⟨h1, off, o, hk, ho, htmp⟩ := hp
-    have hj : j = c.body.length := by simpa using hjb
-    refine ⟨fun _ => ⟨?_, by simp⟩, by simp⟩
-    rw [htmp, new_part hk ho, hj, List.take_length]
 
 theorem inv_run {c : Cfg} : ∀ {evs : List Ev} {s s' : PSt}, Inv c s → InvS c s → runEvs c s evs = some s' →
     Inv c s' ∧ InvS c s'
@@ -187,5 +183,176 @@ theorem runEvs_take {c : Cfg} : ∀ {evs : List Ev} {s s' : PSt} (k : Nat), runE
     · rename_i s1 hs1
       obtain ⟨s2, h2⟩ := runEvs_take (evs := es) k h
       exact ⟨s2, by simp [runEvs, hs1, h2]⟩
+
+/-! ### the generator reading: progress -/
+
+theorem remaining_lt_span (c : Cfg) (s : PSt) : remaining c s < span c := by
+  unfold remaining span
+  split <;> omega
+
+theorem next_none {c : Cfg} {s : PSt} (h : next c s = none) : s.pc = .done ∨ s.pc = .pFail false false := by
+  obtain ⟨pc, target, tmp, anon, status⟩ := s
+  cases pc with
+  | pFail cl u => cases cl <;> cases u <;> simp [next] at h ⊢
+  | recv => simp only [next] at h; split at h <;> simp at h
+  | byNameW => simp only [next] at h; split at h <;> simp at h
+  | pPatch j => simp only [next] at h; split at h <;> simp at h
+  | done => simp
+  | _ => simp [next] at h
+
+theorem gen_none {c : Cfg} {s : PSt} {r : Res} (hi : Inv c s) (hg : genEv c s r = none) : s.pc = .done := by
+  have hn : next c s = none := by
+    unfold genEv at hg
+    split at hg
+    · assumption
+    · split at hg <;> simp at hg
+  rcases next_none hn with h | h
+  · exact h
+  · have := hi.2
+    rw [h] at this
+    simp [InvPc] at this
+
+theorem isPrefix_length_le {a src : Bytes} (h : IsPrefix a src) : a.length ≤ src.length := by
+  unfold IsPrefix at h
+  have := congrArg List.length h
+  rw [List.length_take] at this
+  omega
+
+theorem gen_step {c : Cfg} {s : PSt} {r : Res} {ev : Ev} (hi : Inv c s) (hg : genEv c s r = some ev) :
+    ∃ s', stepEv c s ev = some s' ∧ rank c s' < rank c s := by
+  obtain ⟨pc, target, tmp, anon, status⟩ := s
+  obtain ⟨rok, rn, rab⟩ := r
+  obtain ⟨ht, hp⟩ := hi
+  simp only at ht hp
+  have hsp : 0 < span c := by unfold span; omega
+  cases pc
+  case recv =>
+    simp only [InvPc] at hp
+    obtain ⟨h1, h2, a, ha, hpre⟩ := hp
+    subst ha
+    have hle := isPrefix_length_le hpre
+    by_cases hab : rab = true
+    · obtain ⟨sy, hsy⟩ : ∃ sy, next c { pc := Pc.recv, target := target, tmp := tmp, anon := some a, status := status }
+          = some sy := by
+        simp only [next]; split <;> exact ⟨_, rfl⟩
+      simp [genEv, hsy, hab] at hg
+      subst hg
+      refine ⟨_, by simp [stepEv]; rfl, ?_⟩
+      simp [rank, stage, remaining]; omega
+    · by_cases hlt : a.length < c.body.length
+      · simp [genEv, next, hab, hlt, remaining] at hg
+        subst hg
+        have hn : a.length + min (max rn 1) (c.body.length - a.length) ≤ c.body.length := by omega
+        cases rok
+        · refine ⟨_, by simp [stepEv]; rfl, ?_⟩
+          simp [rank, stage, remaining]; omega
+        · have hl := (extend_prefix hpre hn).2
+          refine ⟨_, by simp [stepEv, hn]; rfl, ?_⟩
+          simp [rank, stage, remaining, hl]; omega
+      · simp [genEv, next, hab, hlt, remaining] at hg
+        subst hg
+        have he : a.length = c.body.length := by omega
+        cases rok
+        · refine ⟨_, by simp [stepEv, he]; rfl, ?_⟩
+          simp [rank, stage, remaining]; omega
+        · refine ⟨_, by simp [stepEv, he]; rfl, ?_⟩
+          simp [rank, stage, remaining]; omega
+  case byNameW =>
+    simp only [InvPc] at hp
+    obtain ⟨h2, a, ha, hpre⟩ := hp
+    subst ha
+    have hle := isPrefix_length_le hpre
+    by_cases hlt : a.length < c.body.length
+    · simp [genEv, next, hlt, remaining] at hg
+      subst hg
+      have hn : a.length + min (max rn 1) (c.body.length - a.length) ≤ c.body.length := by omega
+      cases rok
+      · refine ⟨_, by simp [stepEv]; rfl, ?_⟩
+        simp [rank, stage, remaining]; omega
+      · have hl := (extend_prefix hpre hn).2
+        refine ⟨_, by simp [stepEv, hn]; rfl, ?_⟩
+        simp [rank, stage, remaining, hl]; omega
+    · simp [genEv, next, hlt, remaining] at hg
+      subst hg
+      have he : a.length = c.body.length := by omega
+      cases rok
+      · refine ⟨_, by simp [stepEv, he]; rfl, ?_⟩
+        simp [rank, stage, remaining]; omega
+      · refine ⟨_, by simp [stepEv, he]; rfl, ?_⟩
+        simp [rank, stage, remaining]; omega
+  case pPatch j =>
+    simp only [InvPc] at hp
+    obtain ⟨h1, hjle, off, o, hk, ho, htmp⟩ := hp
+    by_cases hlt : j < c.body.length
+    · simp [genEv, next, hlt, remaining] at hg
+      subst hg
+      have hn : j + min (max rn 1) (c.body.length - j) ≤ c.body.length := by omega
+      cases rok
+      · refine ⟨_, by simp [stepEv, hk, ho]; rfl, ?_⟩
+        simp [rank, stage, remaining]; omega
+      · refine ⟨_, by simp [stepEv, hk, ho, hn]; rfl, ?_⟩
+        simp [rank, stage, remaining]; omega
+    · simp [genEv, next, hlt, remaining] at hg
+      subst hg
+      have he : j = c.body.length := by omega
+      cases rok
+      · refine ⟨_, by simp [stepEv, he]; rfl, ?_⟩
+        simp [rank, stage, remaining]; omega
+      · refine ⟨_, by simp [stepEv, he]; rfl, ?_⟩
+        simp [rank, stage, remaining]; omega
+  case pCopy =>
+    simp only [InvPc] at hp
+    obtain ⟨h1, off, o, a, hk, ho, ha, hpre⟩ := hp
+    subst ha
+    have hle := isPrefix_length_le hpre
+    simp [genEv, next, remaining, ho] at hg
+    subst hg
+    have hn : a.length + min (max rn 1) (o.length - a.length) ≤ o.length := by omega
+    cases rok
+    · refine ⟨_, by simp [stepEv, ho]; rfl, ?_⟩
+      simp [rank, stage, remaining]; omega
+    · have hl := (extend_prefix hpre hn).2
+      by_cases hfull : (extend o a (min (max rn 1) (o.length - a.length))).length = o.length
+      · refine ⟨_, by simp [stepEv, ho, hn, hfull]; rfl, ?_⟩
+        simp [rank, stage, remaining, span, ho]; omega
+      · refine ⟨_, by simp [stepEv, ho, hn, hfull]; rfl, ?_⟩
+        simp [rank, stage, remaining, ho, hl]; omega
+  case pFail cl u =>
+    cases cl <;> cases u
+    all_goals (simp only [genEv, next, InvPc] at hg hp)
+    all_goals (try (repeat' split at hg))
+    all_goals (try (simp at hg))
+    all_goals (try subst hg)
+    all_goals (try (simp only [stepEv]))
+    all_goals (try (repeat' split))
+    all_goals (try (refine ⟨_, rfl, ?_⟩))
+    all_goals (try (simp_all [rank, stage, remaining, span, fin, InvPc]; done))
+    all_goals (try (simp_all [rank, stage, remaining, span, fin, InvPc]; omega))
+    all_goals (try (cases anon <;> simp_all [rank, stage, remaining, span, fin, InvPc] <;> omega))
+  all_goals (simp only [genEv, next, InvPc] at hg hp)
+  all_goals (try (repeat' split at hg))
+  all_goals (try (simp at hg))
+  all_goals (try subst hg)
+  all_goals (try (simp only [stepEv]))
+  all_goals (try (repeat' split))
+  all_goals (try (refine ⟨_, rfl, ?_⟩))
+  all_goals (try (simp_all [rank, stage, remaining, span, fin, InvPc]; done))
+  all_goals (try (simp_all [rank, stage, remaining, span, fin, InvPc]; omega))
+  all_goals (try (cases anon <;> simp_all [rank, stage, remaining, span, fin, InvPc] <;> omega))
+
+theorem runGen_done {c : Cfg} (res : Nat → Res) : ∀ (fuel k : Nat) (s : PSt), Inv c s → InvS c s →
+    rank c s < fuel → ∃ s', runGen c res fuel k s = some s' ∧ s'.pc = .done ∧ Inv c s' ∧ InvS c s'
+  | 0, _, _, _, _, h => absurd h (Nat.not_lt_zero _)
+  | fuel + 1, k, s, hi, h2, hr => by
+    simp only [runGen]
+    cases hg : genEv c s (res k) with
+    | none => exact ⟨s, rfl, gen_none hi hg, hi, h2⟩
+    | some ev =>
+      obtain ⟨s1, hs1, hlt⟩ := gen_step hi hg
+      simp only [hs1]
+      exact runGen_done res fuel (k + 1) s1 (inv_step hi hs1) (invS_step hi h2 hs1) (by omega)
+
+theorem rank_init (c : Cfg) : rank c (init c) < 21 * span c := by
+  simp [rank, init, stage, remaining, span]
 
 end LtVerif.DavPut
